@@ -56,7 +56,7 @@ def job_shapes(cfg):
     jr = C01.new_jr("reshape-helpers")
     R = sc.new_registry()
     maxd = cfg["maxd"]
-    shapes = [s for nd in (1, 2, 3) for s in itertools.product(range(1, maxd + 1), repeat=nd)]
+    shapes = [s for nd in ((1, 2, 3) if maxd <= 3 else (1, 2, 3, 4)) for s in itertools.product(range(1, maxd + 1), repeat=nd) if int(np.prod(s)) <= 96]
     n = 0
     for shape in shapes:
         x = stubs.named_tensor("v", shape)
@@ -680,13 +680,13 @@ def configs(tier):
     t = 60 if tier == "quick" else 300
     q = tier == "quick"
     cfgs = [
-        {"type": "shapes", "maxd": 3},
+        {"type": "shapes", "maxd": 3 if q else 4},
         {"type": "cbrt", "timeout": t},
-        {"type": "logabsdet", "timeout": t, "sizes": (1, 2) if q else (1, 2, 3)},
-        {"type": "masks", "maxf": 8, "maxf_random": 4 if q else 5},
+        {"type": "logabsdet", "timeout": t, "sizes": (1, 2) if q else (1, 2, 3, 4)},
+        {"type": "masks", "maxf": 8, "maxf_random": 4 if q else 6},
         {"type": "typechecks", "ch_timeout": 10 if q else 30},
     ]
-    for K in ((1, 2, 3) if q else (1, 2, 3, 4, 5)):
+    for K in ((1, 2, 3) if q else (1, 2, 3, 4, 5, 6, 7, 8)):
         cfgs.append({"type": "searchsorted", "K": K, "timeout": t})
     for prec in ("F32", "F64"):
         for K in ((2,) if q else (1, 2, 3, 4)):
@@ -698,7 +698,7 @@ def main():
     rep = C.Report(PROP)
     cfgs = configs(C.TIER)
     rep.functions = C.source_hash([torchutils.tile, torchutils.repeat_rows, torchutils.merge_leading_dims, torchutils.split_leading_dim, torchutils.sum_except_batch, torchutils.searchsorted, torchutils.cbrt, torchutils.logabsdet, torchutils.create_alternating_binary_mask, torchutils.create_mid_split_binary_mask, torchutils.create_random_binary_mask, typechecks])
-    rep.bounds = {"shapes": "all shapes with <= 3 dims of size <= 3, repetitions <= 3", "searchsorted_bins": sorted({c["K"] for c in cfgs if c["type"] == "searchsorted"}), "mask_features": "1..8 (random: 1..%d, every tuple of distinct indices)" % max(c.get("maxf_random", 0) for c in cfgs), "logabsdet": "1x1..%dx%d symbolic matrices" % ((max(max(c.get("sizes", (0,))) for c in cfgs),) * 2)}
+    rep.bounds = {"shapes": "all shapes with <= %d dims of size <= %d (<= 96 elements), repetitions <= 3" % ((3, 3) if C.TIER == "quick" else (4, 4)), "searchsorted_bins": sorted({c["K"] for c in cfgs if c["type"] == "searchsorted"}), "mask_features": "split point / draw count / slice bounds: every integer features >= 1 (symbolic, unbounded); mask contents on real torch: 1..8 (random: 1..%d, every tuple of distinct indices)" % max(c.get("maxf_random", 0) for c in cfgs), "logabsdet": "1x1..%dx%d symbolic matrices" % ((max(max(c.get("sizes", (0,))) for c in cfgs),) * 2)}
     rep.assumptions = [
         "exact reals for cbrt/logabsdet/searchsorted(real); IEEE claim only for the bin index",
         "get_temperature builds its own torch.Tensor from a python scalar (no symbolic entry point): outside the claim; gaussian_kde_log_eval is checked under C05",
